@@ -4,14 +4,14 @@
 namespace Naga.Gen.CGuards
 
 def guards : List (Nat × Nat × Nat × Nat × Nat × Nat) := [
-  (0, 0, 2, 1, 0, 96),
-  (0, 0, 3, 2, 0, 128),
-  (0, 0, 4, 3, 0, 82),
+  (0, 0, 2, 1, 0, 102),
+  (0, 0, 3, 2, 0, 134),
+  (0, 0, 4, 3, 0, 88),
   (0, 0, 5, 4, 0, 20),
   (0, 0, 8, 7, 0, 6),
-  (1, 0, 2, 1, 0, 96),
-  (1, 0, 3, 2, 0, 128),
-  (1, 0, 4, 3, 0, 82),
+  (1, 0, 2, 1, 0, 102),
+  (1, 0, 3, 2, 0, 134),
+  (1, 0, 4, 3, 0, 88),
   (1, 0, 5, 4, 0, 20),
   (1, 0, 8, 7, 0, 6),
   (1, 1, 2, 2, 1, 92),
@@ -21,6 +21,6 @@ def guards : List (Nat × Nat × Nat × Nat × Nat × Nat) := [
   (1, 1, 8, 8, 1, 6)
 ]
 
-def occurrences : Nat := 980
+def occurrences : Nat := 1016
 
 end Naga.Gen.CGuards
